@@ -1,11 +1,15 @@
 """C17 - the C++ classes compile when used and equal the C API for every keying path.
 
   1. prove      coq/Props/Properties_C17.v (object model = documented machine, or refuted)
-  2. compile    every documented member / overload (tools/gen_cpp_members.py) with g++ and clang++
+  2. compile    every documented member / overload (tools/gen_cpp_members.py) with g++ and clang++,
+                -std=c++11 and -std=c++17, in three variants of the headers: default (STL),
+                -DASCON_NO_STL, and -DARDUINO against the stub harness/arduino_stub/
   3. correspond harness/h_cpp.cpp (real classes; in-harness direct C calls under the documented
-                key and nonce) against the extracted model (ocaml/drv_cpp.ml)
+                key and nonce) against the extracted model (ocaml/drv_cpp.ml); a second harness
+                built with -DASCON_NO_STL (src/cplusplus/*.cpp compiled here with the same
+                definition) replays the same streams and must print the same lines
 """
-import os, sys, re, json, time, random, shutil
+import os, sys, re, json, time, random, shutil, shlex
 from concurrent.futures import ThreadPoolExecutor
 import common, stdflow, diffrun
 from common import hx
@@ -19,59 +23,138 @@ CLASSES = {  # name -> (key size, family)
     "siv128": (16, "siv"), "siv128a": (16, "siv"), "siv80pq": (20, "siv"),
     "isap128": (16, "isap"), "isap128a": (16, "isap"), "isap80pq": (20, "isap"),
 }
-COMPILERS = [("g++", ["g++", "-std=c++11", "-fsyntax-only"]), ("clang++-14", ["clang++-14", "-std=c++11", "-fsyntax-only"])]
+STD_LEVELS = ["c++11", "c++17"]
+COMPILERS = [("%s -std=%s" % (cc, std), [cc, "-std=" + std, "-fsyntax-only"]) for cc in ("g++", "clang++-14") for std in STD_LEVELS]
+# compile passes: variant of gen_cpp_members -> signature prefix of a violation
+PASSES = [("stl", "nocompile:"), ("nostl", "nocompile-nostl:"), ("arduino", "nocompile-arduino:")]
+NOSTL_HARNESS_SRCS = ["main.cpp", "h_cpp.cpp", "h_trng.cpp"]
 
 
 # ---------------------------------------------------------------------------
 # 2. compile coverage
 
 def compile_coverage(res, scratch):
-    d = os.path.join(scratch, "members")
-    tus = gcm.emit(d)
-    inc = "-I" + os.path.join(common.REPO, "src")
+    """-> ({variant: stats}, {variant: xofa string overloads compile})"""
     compilers = [(n, c) for (n, c) in COMPILERS if shutil.which(c[0])]
     if len(compilers) < len(COMPILERS):
         res.notes.append("compiler(s) not installed, skipped: " + ", ".join(n for (n, c) in COMPILERS if not shutil.which(c[0])))
     if not compilers:
         raise common.Infra("no C++ compiler found")
-    jobs = [(tu, n, c) for tu in tus for (n, c) in compilers]
+    # granularity: at the first language standard every member group has its own small TU; at the further standards the use functions
+    # of one class instantiation share a TU (same headers, same function bodies), and the small TUs of an instantiation are compiled
+    # only where the shared TU produced a diagnostic - every use function is compiled by every compiler at every standard either way
+    first_std = "-std=" + STD_LEVELS[0]
+    tus, merged, dirs = {}, {}, {}
+    for variant, _ in PASSES:
+        dirs[variant] = os.path.join(scratch, "members-" + variant)
+        tus[variant] = gcm.emit(dirs[variant], variant)
+        merged[variant] = gcm.emit_merged(dirs[variant], variant)
+    counter = [0]
 
-    def work(j):
-        tu, n, c = j
-        rc, out = common.sh(c + [inc, tu["file"]], cwd=d, timeout=300)
-        return tu, n, rc, out
+    def run_jobs(jobs):
+        """jobs: (variant, tu, compiler name, command prefix) -> [(variant, tu, name, rc, output)]; thousands of short compilations are run from
+        a few shell scripts (one process per shard) rather than one Python subprocess each, interleaved so that the shards get the same mix"""
+        nshards = max(1, min(common.NPROC * 4, len(jobs)))
+        logs, scripts = [], [[] for _ in range(nshards)]
+        for i, (variant, tu, n, c) in enumerate(jobs):
+            counter[0] += 1
+            log = os.path.join(dirs[variant], "%s.%d.log" % (tu["file"], counter[0]))
+            logs.append(log)
+            cmd = " ".join(shlex.quote(x) for x in c + gcm.variant_flags(variant, common.REPO) + [tu["file"]])
+            scripts[i % nshards].append("cd %s && { %s > %s 2>&1 || echo $? > %s.rc; }" % (shlex.quote(dirs[variant]), cmd, shlex.quote(log), shlex.quote(log)))
+
+        def work(k):
+            path = os.path.join(scratch, "compile-shard-%d-%d.sh" % (counter[0], k))
+            open(path, "w").write("\n".join(scripts[k]) + "\nexit 0\n")
+            return common.sh(["sh", path], timeout=3000)
+        with ThreadPoolExecutor(max_workers=common.NPROC) as ex:
+            for rc, out in ex.map(work, range(nshards)):
+                if rc != 0:
+                    raise common.Infra("compile shard failed: " + out[-500:])
+        out = []
+        for (variant, tu, n, c), log in zip(jobs, logs):
+            if not os.path.exists(log):
+                raise common.Infra("compilation did not run: " + log)
+            rc = int(open(log + ".rc").read().strip() or 1) if os.path.exists(log + ".rc") else 0
+            out.append((variant, tu, n, rc, open(log, errors="replace").read() if os.path.getsize(log) else ""))
+        return out
+    t0 = time.time()
+    jobs = []
+    for variant, _ in PASSES:
+        for (n, c) in compilers:
+            jobs += [(variant, tu, n, c) for tu in (tus[variant] if first_std in c else merged[variant])]
+    round1 = run_jobs(jobs)
+    results = {v: [] for v, _ in PASSES}
+    ncomp = {v: 0 for v, _ in PASSES}
+    again, shared_bad = [], []
+    for (variant, tu, n, rc, out) in round1:
+        ncomp[variant] += 1
+        if tu["member"] == "*" and (rc != 0 or out.strip()):
+            cc = [c for (nn, c) in compilers if nn == n][0]
+            small = [t for t in tus[variant] if t["inst"] == tu["inst"]]
+            again += [(variant, t, n, cc) for t in small]
+            shared_bad.append((variant, tu, n, rc, out, len(small)))
+        else:
+            results[variant].append((tu, n, rc, out))
+    round2 = run_jobs(again) if again else []
+    for (variant, tu, n, rc, out) in round2:
+        ncomp[variant] += 1
+        results[variant].append((tu, n, rc, out))
+    for (variant, tu, n, rc, out, nsmall) in shared_bad:
+        # a diagnostic that only the shared TU shows would be an artefact of sharing or a real interaction: keep it visible
+        if not any(v == variant and nn == n and t["inst"] == tu["inst"] and (r != 0 or o.strip()) for (v, t, nn, r, o) in round2):
+            results[variant].append((tu, n, rc, out))
+    wall = time.time() - t0
+    all_stats, xofa = {}, {}
+    for variant, prefix in PASSES:
+        st, ok = judge_pass(res, variant, prefix, dirs[variant], tus[variant], compilers, results[variant])
+        st["compilations"] = ncomp[variant]
+        st["translation_units_shared_per_instantiation"] = len(merged[variant])
+        st["shared_translation_units_with_diagnostics_recompiled_member_by_member"] = sum(1 for x in shared_bad if x[0] == variant)
+        st["granularity"] = ("-std=%s: one TU per member group; %s: one TU per class instantiation holding the same use functions, and the "
+                             "member-group TUs of an instantiation again wherever that TU produced a diagnostic" %
+                             (STD_LEVELS[0], ", ".join("-std=" + x for x in STD_LEVELS[1:])))
+        all_stats[variant], xofa[variant] = st, ok
+    all_stats["stl"]["all_passes_wall_s"] = round(wall, 1)
+    return all_stats, xofa
+
+
+def judge_pass(res, variant, prefix, d, tus, compilers, results):
+    vflags = " ".join(gcm.VARIANTS[variant]["defs"])
     failures = {}          # error location -> {compiler -> [tu]}, first log
     nfail, ndiag = 0, 0
     bad_groups = set()
-    with ThreadPoolExecutor(max_workers=common.NPROC) as ex:
-        for tu, n, rc, out in ex.map(work, jobs):
-            if rc == 0 and not out.strip():
-                continue
-            ndiag += 1
-            if rc != 0:
-                nfail += 1
-            bad_groups.add((tu["inst"], tu["member"]))
-            locs = re.findall(r"^(?:/\S*?/src/ascon/)?([\w.-]+):(\d+):\d+: (error|warning): (.*)$", out, flags=re.M)
-            keys = []
-            for (f, line, kind, msg) in locs:
-                key = ("%s:%s" % (f, line)) if f.endswith(".h") else ("%s::%s" % (tu["inst"], tu["member"]))
-                if key not in keys:
-                    keys.append(key)
-            if not keys:
-                keys = ["%s::%s" % (tu["inst"], tu["member"])]
-            for key in keys:
-                e = failures.setdefault(key, {"by": {}, "log": None, "tu": None, "compiler": None})
-                e["by"].setdefault(n, []).append("%s::%s" % (tu["inst"], tu["member"]))
-                # keep the smallest, most direct witness: prefer a TU that names the member itself
-                rank = (0 if n == "g++" else 1, len(out))      # g++ only complains when the member is instantiated
-                if e["log"] is None or rank < e["rank"]:
-                    e["log"], e["tu"], e["compiler"], e["rank"] = out, tu, n, rank
+    for tu, n, rc, out in results:
+        if rc == 0 and not out.strip():
+            continue
+        ndiag += 1
+        if rc != 0:
+            nfail += 1
+        bad_groups.add((tu["inst"], tu["member"]))
+        locs = re.findall(r"^(?:/\S*?/src/ascon/)?([\w.-]+):(\d+):\d+: (error|warning): (.*)$", out, flags=re.M)
+        keys = []
+        for (f, line, kind, msg) in locs:
+            key = ("%s:%s" % (f, line)) if f.endswith(".h") else ("%s::%s" % (tu["inst"], tu["member"]))
+            if key not in keys:
+                keys.append(key)
+        if not keys:
+            keys = ["%s::%s" % (tu["inst"], tu["member"])]
+        for key in keys:
+            e = failures.setdefault(key, {"by": {}, "log": None, "tu": None, "compiler": None})
+            e["by"].setdefault(n, []).append("%s::%s" % (tu["inst"], tu["member"]))
+            # keep the smallest, most direct witness: prefer a TU that names the member itself
+            rank = (0 if n.startswith("g++") else 1, len(out))      # g++ only complains when the member is instantiated
+            if e["log"] is None or rank < e["rank"]:
+                e["log"], e["tu"], e["compiler"], e["rank"] = out, tu, n, rank
     for key, e in sorted(failures.items()):
         where = ""
         m = re.match(r"([\w.-]+\.h):(\d+)$", key)
         if m:
-            try:
-                lines = open(os.path.join(common.REPO, "src", "ascon", m.group(1))).read().split("\n")
+            for base in [os.path.join(common.REPO, "src", "ascon")] + gcm.VARIANTS[variant]["incdirs"]:
+                try:
+                    lines = open(os.path.join(base, m.group(1))).read().split("\n")
+                except Exception:
+                    continue
                 ln = int(m.group(2))
                 decl = ""
                 for k in range(ln - 1, max(0, ln - 12), -1):
@@ -79,38 +162,50 @@ def compile_coverage(res, scratch):
                         decl = lines[k].strip()
                         break
                 where = "  member: %s\n  line %d: %s\n" % (decl, ln, lines[ln - 1].strip())
-            except Exception:
-                pass
+                break
         tu = e["tu"]
         src = open(os.path.join(d, tu["file"])).read()
         affected = {n: sorted(set(v)) for n, v in e["by"].items()}
-        res.violation("nocompile:" + key,
-                      "a documented member does not compile when used (%s):\n%s  diagnosed by: %s\n  affected member groups: %s\n%s" %
-                      (key, where, ", ".join("%s in %d TU(s)" % (n, len(v)) for n, v in affected.items()),
+        vtxt = "" if variant == "stl" else " in the %s variant of the headers (%s)" % (variant, gcm.VARIANTS[variant]["what"])
+        extra = {}
+        if variant == "arduino":
+            extra["stub_headers"] = {f: open(os.path.join(gcm.ARDUINO_STUB, f)).read() for f in sorted(os.listdir(gcm.ARDUINO_STUB))}
+        res.violation(prefix + key,
+                      "a documented member does not compile when used%s (%s):\n%s  diagnosed by: %s\n  affected member groups: %s\n%s" %
+                      (vtxt, key, where, ", ".join("%s in %d TU(s)" % (n, len(v)) for n, v in affected.items()),
                        ", ".join(sorted(set(x for v in affected.values() for x in v))[:12]), e["log"][:900]),
-                      {"kind": "compile", "tu_name": tu["file"], "tu": src, "compiler": e["compiler"],
-                       "command": " ".join([c for (n, c) in compilers if n == e["compiler"]][0] + ["-I<repo>/src", tu["file"]]),
-                       "compiler_output": e["log"][:6000], "affected": affected,
-                       "how": "./check C17 --replay <this file> recompiles `tu` against the current headers with every installed compiler"})
+                      dict({"kind": "compile", "variant": variant, "defines": gcm.VARIANTS[variant]["defs"],
+                            "tu_name": tu["file"], "tu": src, "compiler": e["compiler"],
+                            "command": " ".join([c for (n, c) in compilers if n == e["compiler"]][0] + gcm.VARIANTS[variant]["defs"] + ["-I<repo>/src"] +
+                                                ["-I<verif>/harness/arduino_stub"] * (variant == "arduino") + [tu["file"]]),
+                            "compiler_output": e["log"][:6000], "affected": affected,
+                            "how": "./check C17 --replay <this file> recompiles `tu` against the current headers with every installed compiler "
+                                   "and language standard (%s)" % (vflags or "no definitions")}, **extra))
     # the table against the headers as they are now
     cross = None
     try:
-        missing, stale, ninv, ndoc = gcm.crosscheck(common.REPO)
+        missing, stale, ninv, ndoc = gcm.crosscheck(common.REPO, variant)
         cross = {"declarations_in_headers": ninv, "with_own_doxygen_comment": ndoc, "not_in_table": len(missing), "not_in_headers": len(stale)}
         if missing or stale:
-            res.violation("member-table-vs-headers",
-                          "the member table of tools/gen_cpp_members.py and the public declarations of the headers differ: "
-                          "not covered by the table: %s; no longer declared: %s" % (missing[:8], stale[:8]),
-                          {"not_in_table": [list(x) for x in missing], "not_in_headers": [list(x) for x in stale]}, no_input=True)
+            res.violation("member-table-vs-headers" + ("" if variant == "stl" else "@" + variant),
+                          "the member table of tools/gen_cpp_members.py (variant %s) and the public declarations of the headers differ: "
+                          "not covered by the table: %s; no longer declared: %s" % (variant, missing[:8], stale[:8]),
+                          {"variant": variant, "not_in_table": [list(x) for x in missing], "not_in_headers": [list(x) for x in stale]}, no_input=True)
     except Exception as e:                                     # clang missing: the table is then only self-consistent
-        res.notes.append("member table not cross-checked against clang's AST: %s" % str(e)[:200])
+        res.notes.append("member table (%s) not cross-checked against clang's AST: %s" % (variant, str(e)[:200]))
     nuses = sum(len(t["uses"]) for t in tus)
     xofa_ok = not any(k.startswith("xof.h:") for k in failures) and \
-        not any(inst.startswith("xofa_with_output_length") and mem == "absorb" for (inst, mem) in bad_groups)
-    stats = {"translation_units": len(tus), "member_uses_compiled": nuses, "table_rows": len(gcm.table()),
-             "compilers": [n for (n, c) in compilers], "compilations": len(jobs), "compilations_with_diagnostics": ndiag,
+        not any(inst.startswith("xofa_with_output_length") and mem in ("absorb", "*") for (inst, mem) in bad_groups)
+    tab = gcm.table(variant)
+    stats = {"variant": variant, "what": gcm.VARIANTS[variant]["what"], "defines": gcm.VARIANTS[variant]["defs"],
+             "translation_units": len(tus), "member_uses_compiled": nuses, "table_rows": len(tab),
+             "rows_only_in_this_variant": sorted(set("%s::%s %s" % (r["inst"], r["name"], r["sig"]) for r in tab if r["flags"] in ("stl", "nostl", "arduino")))[:80],
+             "compilers": [n for (n, c) in compilers], "std_levels": STD_LEVELS, "compilations": len(results), "compilations_with_diagnostics": ndiag,
              "compilations_failed": nfail, "distinct_failure_locations": sorted(failures), "crosscheck": cross,
              "template_lengths": gcm.XOF_LENGTHS}
+    if variant == "arduino":
+        stats["stub"] = ("STUB: <Arduino.h>/<WString.h> are the minimal stand-ins of harness/arduino_stub (String with c_str()/length() and the real "
+                         "class's signatures), host compilers; this is not a build with the Arduino core or an AVR/ARM cross compiler")
     return stats, xofa_ok
 
 
@@ -327,8 +422,129 @@ def shrink_cpx(harness, line, want):
     return " ".join(t)
 
 
-def run_config(res, driver, harness, cfgname, cpx, meta, xof, utl, versions, stats, env=None):
+def build_nostl(res, got, san=False, defs=()):
+    """The second harness: main.cpp + h_cpp.cpp + h_trng.cpp and /repo's src/cplusplus/*.cpp (working tree), all compiled
+    with -DASCON_NO_STL, linked before libascon_static.a of the build `got` (whose own C++ members were compiled by CMake
+    without the definition and must stay out of the link).  -> (exe, name, info) or None"""
+    bdir, _, name = got
+    name += "-nostl"
+    d = os.path.join(bdir, "nostl")
+    os.makedirs(d, exist_ok=True)
     t0 = time.time()
+    inc = ["-I" + os.path.join(common.REPO, "src"), "-I" + os.path.join(common.REPO, "src", "ascon"), "-I" + bdir]
+    fl = ["-std=c++11", "-DASCON_NO_STL", "-DHAVE_CONFIG_H", "-DASCON_SUITE_VERIF"] + (common.SAN_FLAGS.split() if san else ["-O1", "-g"])
+    cdir = os.path.join(common.REPO, "src", "cplusplus")
+    libsrcs = sorted(f for f in os.listdir(cdir) if f.endswith(".cpp"))
+    jobs = [("lib", f, ["g++"] + fl + ["-Wall", "-Wextra"] + inc + ["-c", os.path.join(cdir, f), "-o", os.path.join(d, "lib-" + f[:-4] + ".o")]) for f in libsrcs]
+    jobs += [("harness", f, ["g++"] + fl + ["-w"] + list(defs) + inc + ["-I" + os.path.join(common.VERIF, "harness"), "-c",
+                                                                      os.path.join(common.VERIF, "harness", f), "-o", os.path.join(d, "h-" + f[:-4] + ".o")])
+             for f in NOSTL_HARNESS_SRCS]
+    with ThreadPoolExecutor(max_workers=len(jobs)) as ex:
+        outs = list(ex.map(lambda j: common.sh(j[2], timeout=900), jobs))
+    libwarn = sum(len(re.findall(r"\bwarning:", o)) for (j, (rc, o)) in zip(jobs, outs) if j[0] == "lib")
+    for (kind, f, cmd), (rc, o) in zip(jobs, outs):
+        if rc != 0:
+            sig = ("nocompile-nostl:src/cplusplus/" + f) if kind == "lib" else ("harness-build-failed@" + name)
+            res.violation(sig, ("/repo's src/cplusplus/%s does not compile with -DASCON_NO_STL:\n%s" if kind == "lib" else
+                                "the correspondence harness (%s) no longer compiles with -DASCON_NO_STL against /repo:\n%s") % (f, o[-1500:]),
+                          {"config": name, "command": " ".join(cmd), "log_tail": o[-6000:]}, no_input=True)
+            return None
+    exe = os.path.join(d, "verif_harness_nostl")
+    objs = [os.path.join(d, "h-" + f[:-4] + ".o") for f in NOSTL_HARNESS_SRCS] + [os.path.join(d, "lib-" + f[:-4] + ".o") for f in libsrcs]
+    cmd = ["g++"] + (common.SAN_FLAGS.split() if san else []) + objs + [os.path.join(bdir, "src", "libascon_static.a"), "-lpthread", "-o", exe]
+    rc, o = common.sh(cmd, timeout=900)
+    if rc != 0:
+        res.violation("harness-build-failed@" + name, "the ASCON_NO_STL harness does not link (duplicate or missing symbols between the NO_STL objects "
+                      "of src/cplusplus and libascon_static.a?):\n" + o[-1500:], {"config": name, "command": " ".join(cmd), "log_tail": o[-6000:]}, no_input=True)
+        return None
+    # where do the class members come from?  every ascon:: function must be defined exactly once, the byte_array overloads must be the
+    # ones over the library's own class, and nothing over std::vector may have come in from the archive
+    rc, nm = common.sh(["nm", "-C", "--defined-only", exe], timeout=300)
+    defs_ = [l.split(" ", 2)[2] for l in nm.split("\n") if len(l.split(" ", 2)) == 3 and l.split(" ", 2)[1] in "TtWw" and l.split(" ", 2)[2].startswith("ascon::")]
+    own = [x for x in defs_ if re.match(r"ascon::aead::(en|de)crypt\(ascon::byte_array&", x)]
+    vec = [x for x in defs_ if "std::vector" in x]
+    ba = [x for x in defs_ if x.startswith("ascon::byte_array::")]
+    libdefs = set()
+    for f in libsrcs:
+        rc2, nm2 = common.sh(["nm", "-C", "--defined-only", os.path.join(d, "lib-" + f[:-4] + ".o")], timeout=300)
+        libdefs |= set(l.split(" ", 2)[2] for l in nm2.split("\n") if len(l.split(" ", 2)) == 3 and l.split(" ", 2)[1] in "T")
+    strong = [x for x in defs_ if x in libdefs]
+    info = {"library_sources_compiled_with_ASCON_NO_STL": libsrcs, "harness_sources": NOSTL_HARNESS_SRCS,
+            "library_source_warnings": libwarn, "sanitizers": bool(san),
+            "nm": {"ascon_functions_defined_in_exe": len(defs_), "of_them_defined_by_the_NO_STL_objects": len(strong),
+                   "aead_byte_array_overloads_over_own_class": len(own), "byte_array_class_members": len(ba), "symbols_over_std_vector": len(vec)},
+            "build_wall_s": round(time.time() - t0, 1)}
+    if len(own) != 4 or not ba or vec:
+        res.violation("harness-build-failed@" + name, "the ASCON_NO_STL harness is not made of NO_STL objects: %s" % info["nm"],
+                      {"config": name, "nm": info["nm"], "std_vector_symbols": vec[:10]}, no_input=True)
+        return None
+    return exe, name, info
+
+
+def first_diff_call(a, b):
+    """index of the first call whose printed part differs between two CPX result lines"""
+    x, y = a.split("] "), b.split("] ")
+    k = 0
+    while k < min(len(x), len(y)) and x[k] == y[k]:
+        k += 1
+    return k
+
+
+def shrink_nostl(harness, ref_harness, line, env=None):
+    """drop earlier member calls while the two builds still first differ at the last call, which keeps its kind"""
+    t = line.split()
+    kind = opkind(line, len(t) - 3)
+
+    def still(cand):
+        l = " ".join(cand)
+        rc, a, _ = common.run_lines(harness, [l], env=env, timeout=120)
+        rc, b, _ = common.run_lines(ref_harness, [l], timeout=120)
+        return bool(a and b) and a[0] != b[0] and first_diff_call(b[0], a[0]) == len(cand) - 3 and opkind(l, len(cand) - 3) == kind
+    if len(t) <= 4 or not still(t):
+        return line
+    i = 3
+    while i < len(t) - 1:
+        cand = t[:i] + t[i + 1:]
+        if still(cand):
+            t = cand
+        else:
+            i += 1
+    return " ".join(t)
+
+
+BA_TOKENS = ("EB", "EB2", "DB", "DB2", "QB", "AB", "FB", "UB")
+
+
+def shrink_xof(driver, harness, ref_harness, model_line, env=None):
+    """drop member calls of an XOFC/HSHC history while the two harnesses still print different lines"""
+    t = model_line.split()
+    first = 4 if t[0] == "XOFC" else 2
+
+    def differs(cand):
+        ml = " ".join(cand)
+        rc, calls, _ = common.run_lines(driver, [ml], timeout=120)
+        if not calls:
+            return False
+        hl = "%s | %s" % (ml.replace("XOFC", "XOFX", 1).replace("HSHC", "HSHX", 1), calls[0])
+        rc, a, _ = common.run_lines(harness, [hl], env=env, timeout=120)
+        rc, b, _ = common.run_lines(ref_harness, [hl], timeout=120)
+        return bool(a and b) and a[0].replace(" SKIPPED-NOSTL", "") != b[0]
+    i = first
+    while i < len(t) and len(t) > first + 1:
+        cand = t[:i] + t[i + 1:]
+        if differs(cand):
+            t = cand
+        else:
+            i += 1
+    return " ".join(t)
+
+
+def run_config(res, driver, harness, cfgname, cpx, meta, xof, utl, versions, stats, env=None, ref=None, ref_harness=None, info=None):
+    """ref: the result lines of the default (STL) harness for the same streams; given for the ASCON_NO_STL harness, whose lines must be identical"""
+    t0 = time.time()
+    nostl = ref is not None
+    nident = ndiff = 0
+    skipped_nostl = {"xof_histories_with_AS": 0, "hash_histories_with_US": 0, "helper_cases": 0}
     # ---- CPX: model and implementation
     rc_m, out_m, err_m = common.run_parallel(driver, cpx)
     if rc_m:
@@ -337,10 +553,38 @@ def run_config(res, driver, harness, cfgname, cpx, meta, xof, utl, versions, sta
     combos = set()
     ndev = nmodel = 0
     seen = set()
-    for line, (cls, kind), mo, io in zip(cpx, meta, out_m, out_i):
+    for k_, (line, (cls, kind), mo, io) in enumerate(zip(cpx, meta, out_m, out_i)):
         for tok in line.split()[3:]:
             if tok.split(":")[0] in OVERLOADS:
                 combos.add((cls, kind, tok.split(":")[0]))
+        if nostl:
+            # the ASCON_NO_STL build against the default build, line by line; what both print alike has been judged under the default build
+            if io == ref["cpx"][k_]:
+                nident += 1
+                continue
+            ndiff += 1
+            k = first_diff_call(ref["cpx"][k_], io)
+            sig = "nostl-differs:%s:%s" % (cls, opkind(line, k))
+            if sig in seen:
+                continue
+            seen.add(sig)
+            t = line.split()
+            small = " ".join(t[:3 + k])                      # the history up to the first differing call, then without the calls it does not need
+            if k >= 1:
+                small = shrink_nostl(harness, ref_harness, small, env=env)
+                k = len(small.split()) - 3
+            rc, a2, _ = common.run_lines(harness, [small], env=env, timeout=120)
+            rc, b2, _ = common.run_lines(ref_harness, [small], timeout=120)
+            if not (a2 and b2 and a2[0] != b2[0]):
+                small, a2, b2, k = line, [io], [ref["cpx"][k_]], first_diff_call(ref["cpx"][k_], io)
+            rc, m2, _ = common.run_lines(driver, [small], timeout=120)
+            res.violation(sig, "ascon::%s built with -DASCON_NO_STL (ascon::byte_array = the library's own class) behaves differently from the default "
+                          "build at call %d (%s) of: %s\n  default build:  %s\n  ASCON_NO_STL:   %s\n  model:          %s" %
+                          (cls, k, opkind(small, k), small[:400], b2[0][:600], a2[0][:600], (m2[0] if m2 else "")[:600]),
+                          {"config": cfgname, "ops": [small], "impl": a2, "default": b2, "model": m2, "original_line": line,
+                           "how": "./check C17 --replay <this file>  (rebuilds the ASCON_NO_STL harness and the default harness from the working tree and "
+                                  "feeds `ops` to both and to build/ocaml/driver)"})
+            continue
         # (a) the real classes against the direct C calls under the documented key / nonce
         md = re.search(r"doc=(DEV@(\d+):(\w+))", io)
         if md:
@@ -401,9 +645,37 @@ def run_config(res, driver, harness, cfgname, cpx, meta, xof, utl, versions, sta
     hl = ["%s | %s" % (h, c) for (m, h), c in zip(xof, calls)]
     rc_i, xo, err_x = common.run_parallel(harness, hl, env=env)
     nskipped = 0
-    for l, o in zip(hl, xo):
+    for k_, (l, o) in enumerate(zip(hl, xo)):
         if "SKIPPED-NONCOMPILING" in o:
             nskipped += 1
+        if nostl:
+            if " SKIPPED-NOSTL" in o:       # std::string overload (AS / US): absorbed through the pointer overload instead, counted
+                skipped_nostl["xof_histories_with_AS" if l.startswith("XOFX") else "hash_histories_with_US"] += 1
+                o = o.replace(" SKIPPED-NOSTL", "")
+            if o == ref["xof"][k_]:
+                nident += 1
+                continue
+            ndiff += 1
+            t = l.split()
+            cls = t[1] if t[0] == "HSHX" else "%s<%s>" % (t[1], t[2])
+            small = shrink_xof(driver, harness, ref_harness, xof[k_][0], env=env)
+            kinds = []
+            for tok in small.split()[(4 if t[0] == "XOFX" else 2):]:
+                if tok.split(":")[0] not in kinds:
+                    kinds.append(tok.split(":")[0])
+            sig = "nostl-differs:%s:%s" % (cls, "+".join(kinds[:4]) or "ctor")
+            if sig in seen:
+                continue
+            seen.add(sig)
+            rc, calls2, _ = common.run_lines(driver, [small], timeout=120)
+            hl2 = "%s | %s" % (small.replace("XOFC", "XOFX", 1).replace("HSHC", "HSHX", 1), calls2[0] if calls2 else "")
+            rc, a2, _ = common.run_lines(harness, [hl2], env=env, timeout=120)
+            rc, b2, _ = common.run_lines(ref_harness, [hl2], timeout=120)
+            res.violation(sig, "ascon::%s built with -DASCON_NO_STL gives a different result from the default build (and from the C call sequence) for: %s\n"
+                          "  default build:  %s\n  ASCON_NO_STL:   %s" % (cls, hl2[:400], (b2[0] if b2 else "")[:300], (a2[0] if a2 else "")[:300]),
+                          {"config": cfgname, "ops": [hl2], "impl": a2, "default": b2, "original_line": l,
+                           "how": "./check C17 --replay <this file>"})
+            continue
         if " C=ok" not in o:
             t = l.split()
             res.violation("xof-hash:%s" % t[1] if t[0] == "HSHX" else "xof-hash:%s<%s>" % (t[1], t[2]),
@@ -422,7 +694,21 @@ def run_config(res, driver, harness, cfgname, cpx, meta, xof, utl, versions, sta
     # ---- helpers
     rc_m, um, _ = common.run_parallel(driver, utl)
     rc_i, ui, _ = common.run_parallel(harness, utl, env=env)
-    for l, mo, io in zip(utl, um, ui):
+    for k_, (l, mo, io) in enumerate(zip(utl, um, ui)):
+        if nostl:
+            if io == "SKIPPED-NOSTL":        # bytes_to_hex / bytes_from_hex(std::string): not declared without the STL
+                skipped_nostl["helper_cases"] += 1
+                continue
+            if io == ref["utl"][k_] and io == mo:
+                nident += 1
+                continue
+            ndiff += 1
+            t = l.split()
+            res.violation("nostl-differs:utility:%s" % "-".join([t[1]] + t[3:4]),
+                          "utility.h helper built with -DASCON_NO_STL differs from the default build / the model: %s\n  default build:  %s\n  ASCON_NO_STL:   %s\n"
+                          "  model:          %s" % (l[:200], ref["utl"][k_][:300], io[:300], mo[:300]),
+                          {"config": cfgname, "ops": [l], "impl": [io], "default": [ref["utl"][k_]], "model": [mo], "how": "./check C17 --replay <this file>"})
+            continue
         if " C=ok" not in io or mo != io:
             res.violation("helper:%s" % l.split()[1], "utility.h helper differs from the C function / the model: %s\n  model: %s\n  impl:  %s" % (l[:200], mo[:300], io[:300]),
                           {"config": cfgname, "ops": [l], "model": [mo], "impl": [io]})
@@ -430,38 +716,69 @@ def run_config(res, driver, harness, cfgname, cpx, meta, xof, utl, versions, sta
                   "class_path_overload_combinations": len(combos), "histories_departing_from_documentation": ndev,
                   "model_vs_code_disagreements": nmodel, "xof_hash_histories": len(hl), "xofa_string_overloads_skipped_in": nskipped,
                   "helper_cases": len(utl), "wall_s": round(time.time() - t0, 1)})
-    return combos
+    if nostl:
+        ntok = {}
+        for l in cpx + [h for (m, h) in xof]:
+            for tok in l.split()[2:]:
+                if tok.split(":")[0] in BA_TOKENS or tok.startswith("N:") and tok.endswith(":B"):
+                    kk = "NB" if tok.startswith("N:") else tok.split(":")[0]
+                    ntok[kk] = ntok.get(kk, 0) + 1
+        ntok["UTL-FROMHEX-L/C,FROMDATA"] = len(utl) - skipped_nostl["helper_cases"]
+        stats[-1].update({"ascon_no_stl": True, "lines_compared_with_default_build": len(cpx) + len(hl) + len(utl) - skipped_nostl["helper_cases"],
+                          "lines_identical_to_default_build": nident, "lines_differing": ndiff,
+                          "skipped_stl_only": dict(skipped_nostl, note="AS/US: the data went through the pointer overload instead and the line was still compared; "
+                                                                       "helper cases: TOHEX/TOHEXD (both forms) and FROMHEX S answer SKIPPED-NOSTL and are not compared"),
+                          "byte_array_form_calls_over_own_class": ntok, "build": info})
+    return combos, {"cpx": out_i, "xof": xo, "utl": ui}
 
 
 def replay_run(res, driver, replay, scratch):
     rp = json.load(open(replay))["replay"]
     if rp.get("kind") == "compile":
+        variant = rp.get("variant", "stl")
         d = os.path.join(scratch, "replay")
         os.makedirs(d, exist_ok=True)
         open(os.path.join(d, rp["tu_name"]), "w").write(rp["tu"])
         for (n, c) in COMPILERS:
             if not shutil.which(c[0]):
                 continue
-            rc, out = common.sh(c + ["-I" + os.path.join(common.REPO, "src"), rp["tu_name"]], cwd=d)
-            print("[%s] exit %d\n%s" % (n, rc, out[:3000]))
+            cmd = c + gcm.variant_flags(variant, common.REPO) + [rp["tu_name"]]
+            rc, out = common.sh(cmd, cwd=d)
+            print("[%s] %s\n  exit %d\n%s" % (n, " ".join(cmd), rc, out[:3000]))
             if rc != 0 or out.strip():
-                res.violation("nocompile:replay", "the replayed translation unit still does not compile with %s:\n%s" % (n, out[:1500]),
-                              {"kind": "compile", "tu_name": rp["tu_name"], "tu": rp["tu"], "compiler": n, "compiler_output": out[:6000]})
+                res.violation("nocompile:replay", "the replayed translation unit (variant %s) still does not compile with %s:\n%s" % (variant, n, out[:1500]),
+                              {"kind": "compile", "variant": variant, "tu_name": rp["tu_name"], "tu": rp["tu"], "compiler": n, "compiler_output": out[:6000]})
         return
     b = stdflow.Builds(res, scratch)
     got = b.get("default")
     if not got:
         return
+    nostl = None
+    if str(rp.get("config", "")).endswith("-nostl"):
+        nostl = build_nostl(res, got)
+        if not nostl:
+            return
+        print("ASCON_NO_STL harness rebuilt: %s" % nostl[2]["nm"])
     for l in rp["ops"]:
         rc, io, err = common.run_lines(got[1], [l])
         print("op:    " + l)
         print("impl:  " + (io[0] if io else "<none> " + err[-300:]))
+        mo = None
         if l.startswith(("CPX", "UTL")):
             rc, mo, _ = common.run_lines(driver, [l])
             print("model: " + (mo[0] if mo else "<none>"))
         o = io[0] if io else ""
         if "doc=DEV" in o or "MISMATCH" in o or "fwd=BAD" in o:
             res.violation("replay", "the replayed case still fails: %s\n  %s" % (l[:300], o[:600]), {"config": "default", "ops": [l], "impl": io})
+        if nostl:
+            rc, no, err = common.run_lines(nostl[0], [l])
+            n0 = (no[0] if no else "<none> " + err[-300:])
+            print("nostl: " + n0)
+            n1 = n0.replace(" SKIPPED-NOSTL", "")
+            if n1 != "SKIPPED-NOSTL" and (n1 != o or (mo and n1 != mo[0])):
+                res.violation("replay-nostl", "the replayed case still differs between the ASCON_NO_STL build and the default build / the model: %s\n"
+                              "  default build:  %s\n  ASCON_NO_STL:   %s" % (l[:300], o[:600], n0[:600]),
+                              {"config": nostl[1], "ops": [l], "impl": no, "default": io, "model": mo})
 
 
 def run(res, tier, seed, replay=None):
@@ -476,20 +793,42 @@ def run(res, tier, seed, replay=None):
             replay_run(res, driver, replay, sc)
             res.cov["wall_total"] = round(time.time() - t0, 1)
             return "proof"
-        cstats, xofa_ok = compile_coverage(res, sc)
+        tc = time.time()
+        call, xofa = compile_coverage(res, sc)
+        cstats, xofa_ok = call["stl"], xofa["stl"]
+        stage = {"compile_coverage": round(time.time() - tc, 1)}
         cpx, meta = gen_cpx(rng, tier)
         xof = gen_xof(rng, tier)
         utl = gen_utl(rng, tier)
         b = stdflow.Builds(res, sc)
         defs = ("-DC17_XOFA_STRING_OK",) if xofa_ok else ()
-        plan = [("default", False)] if tier == "quick" else [("default", False), ("c32", False), ("generic", False), ("default", True)]
+        ndefs = ("-DC17_XOFA_STRING_OK",) if xofa["nostl"] else ()
+        # (configuration, sanitizers, ASCON_NO_STL harness)
+        plan = [("default", False, False), ("default", False, True)] if tier == "quick" else \
+               [("default", False, False), ("default", False, True), ("c32", False, False), ("generic", False, False), ("default", True, False), ("default", True, True)]
         stats, combos = [], set()
-        for cfg, san in plan:
+        ref = ref_harness = None
+        for cfg, san, nostl in plan:
+            tb = time.time()
             got = b.get(cfg, san=san, harness_defs=defs)
             if not got:
                 continue
             env = {"VERIF_EXACT": "1", "ASAN_OPTIONS": "detect_leaks=0"} if san else None
-            combos |= run_config(res, driver, got[1], got[2], cpx, meta, xof, utl, versions, stats, env=env)
+            if not nostl:
+                stage["build:" + got[2]] = round(time.time() - tb, 1)
+                cb, outs = run_config(res, driver, got[1], got[2], cpx, meta, xof, utl, versions, stats, env=env)
+                combos |= cb
+                if ref is None and cfg == "default" and not san:
+                    ref, ref_harness = outs, got[1]
+                continue
+            if ref is None:
+                res.notes.append("ASCON_NO_STL run-time replay skipped: no default-build reference run")
+                continue
+            n = build_nostl(res, got, san=san, defs=ndefs)
+            if not n:
+                continue
+            stage["build:" + n[1]] = round(time.time() - tb, 1)
+            run_config(res, driver, n[0], n[1], cpx, meta, xof, utl, versions, stats, env=env, ref=ref, ref_harness=ref_harness, info=n[2])
     hist = {}
     for l in cpx:
         for tok in l.split()[2:]:
@@ -506,12 +845,32 @@ def run(res, tier, seed, replay=None):
         "samples": cpx[:2] + cpx[-1:] + [h for (m, h) in xof[:1]] + utl[:1],
         "members_compiled": cstats["member_uses_compiled"],
         "compile_coverage": cstats,
+        "compile_coverage_nostl": call["nostl"],
+        "compile_coverage_arduino": call["arduino"],
+        "compile_passes": {v: {"defines": st["defines"], "translation_units": st["translation_units"], "member_uses": st["member_uses_compiled"],
+                               "compilers_x_standards": len(st["compilers"]), "compilations": st["compilations"],
+                               "failed": st["compilations_failed"], "failure_locations": st["distinct_failure_locations"]} for v, st in call.items()},
+        "stage_wall_s": stage,
         "class_path_overload_combinations": len(combos),
         "model_code_versions": versions,
         "xofa_string_overloads_in_harness": bool(xofa_ok),
         "per_config": stats,
         "input_distribution": {"tokens": hist, "message_lengths": LENS, "mutations": sorted(set(MUTS)), "counters": [str(c) for c in COUNTERS],
-                               "classes": sorted(CLASSES), "paths_per_class": {c: len(keying_paths(random.Random(1), c)) for c in CLASSES}},
+                               "classes": sorted(CLASSES), "paths_per_class": {c: len(keying_paths(random.Random(1), c)) for c in CLASSES},
+                               "std-levels": STD_LEVELS,
+                               "nostl-compile-pass": "every row of the member table that exists with -DASCON_NO_STL (std::string rows dropped, the 29 non-private "
+                                                     "members of the library's own class ascon::byte_array added): %d TUs, %d uses, x %d compiler/standard pairs" %
+                                                     (call["nostl"]["translation_units"], call["nostl"]["member_uses_compiled"], len(call["nostl"]["compilers"])),
+                               "arduino-compile-pass": "the same with -DARDUINO=10819 plus the String overloads (hash/hasha update, xof/xofa absorb, bytes_from_hex, "
+                                                       "bytes_to_hex -> String), against the STUB <Arduino.h>/<WString.h> of harness/arduino_stub: %d TUs, %d uses, "
+                                                       "x %d compiler/standard pairs" %
+                                                       (call["arduino"]["translation_units"], call["arduino"]["member_uses_compiled"], len(call["arduino"]["compilers"])),
+                               "nostl-runtime-replay": "the same CPX / XOFX / HSHX / UTL streams fed to a second harness built with -DASCON_NO_STL "
+                                                       "(byte_array forms EB/EB2/DB/DB2, QB/AB/N..B, FB/UB, FROMHEX L/C, FROMDATA over the library's own class); "
+                                                       "every line must equal the default-build line and the model line; STL-only operations (AS, US, TOHEX*, FROMHEX S) "
+                                                       "are counted in per_config[].skipped_stl_only; empty input arrays alternate between the array without a buffer "
+                                                       "and the zero-sized array with one, and in half of the encrypt/decrypt calls the output array shares its buffer "
+                                                       "with a copy taken before the call, which must keep its contents"},
         "oracles": {"plain+masked classes": "extracted Coq model of the C function (x_aead_encrypt/x_aead_decrypt) inside the extracted object model, "
                                             "AND the in-harness direct C call under the documented key/nonce",
                     "siv+isap classes": "in-harness direct C call (documented key/nonce, and held key/nonce); the extracted object model predicts "
@@ -525,8 +884,13 @@ def run(res, tier, seed, replay=None):
         "refuse inputs shorter than the tag) - C01/C02/C06 state this of the real functions; masked key objects satisfy mkey_ok (C10)",
         "Model/Cppm.v mirrors src/cplusplus/*.cpp and the inline wrappers only as far as the differential run shows (held key, nonce, results after every call)",
         "uninitialised storage is modelled as arbitrary prior bytes (the harness pre-fills the object's storage with 0xC7 and constructs in place)",
-        "a diagnostic-free -fsyntax-only compilation of a translation unit that odr-uses the member is taken as 'compiles when used' (g++ 12, clang++ 14, -std=c++11)",
-        "ARDUINO / ASCON_NO_STL variants of the headers are not compiled here (byte_array without STL is C20's subject)",
+        "a diagnostic-free -fsyntax-only compilation of a translation unit that odr-uses the member is taken as 'compiles when used' "
+        "(g++ 12 and clang++ 14, each with -std=c++11 and -std=c++17; other standards and compilers are not tried)",
+        "the ASCON_NO_STL variant of the headers is compiled member by member (second pass) and run: src/cplusplus/*.cpp are compiled here with "
+        "-DASCON_NO_STL (g++ -std=c++11) and linked with the C objects of the default CMake build; the run-time comparison covers the default backend "
+        "and share configuration only; the semantics of the library's own byte_array class beyond what these calls exercise is C20's subject",
+        "the ARDUINO variant is only compiled (third pass), on the host, against a minimal STUB of <Arduino.h>/<WString.h> (harness/arduino_stub: a String "
+        "class with the real signatures of c_str()/length()); it is not built with the Arduino core, not cross-compiled and not run",
         "all lengths < 2^31",
     ]
     res.cov["wall_total"] = round(time.time() - t0, 1)
